@@ -45,7 +45,7 @@ def all_close(a, b, rtol=RTOL, scale=None):
 # ----------------------------------------------------------------------------
 # frames
 # ----------------------------------------------------------------------------
-def gen_frame(rng, n_pre=None, cooldown=None, cost_kind=None, spike=False):
+def gen_frame(rng, n_pre=None, cooldown=None, cost_kind=None, spike=False, flat_test=False):
   """JSON-able experiment: rows (geo, date, group, period, response, cost) + what the totals should be."""
   n_pre = n_pre or rng.choice([3, 3, 4, 5, 6, 8, 10, 14, 20])
   n_test = rng.choice([1, 2, 3, 4, 6, 8])
@@ -67,6 +67,10 @@ def gen_frame(rng, n_pre=None, cooldown=None, cost_kind=None, spike=False):
     base[i0] += rng.uniform(150, 400)
     base[i0 + 1] -= rng.uniform(100, 250)
     base[i0 + 1] = max(base[i0 + 1], 1.0)
+  if flat_test:     # the control total is the same on every day of the experiment (a capped or rounded feed)
+    i0 = n_lead + n_pre
+    for d in range(i0, i0 + n_test + n_cool):
+      base[d] = base[i0]
   a, b = rng.uniform(-20, 40), rng.uniform(0.5, 2.5)
   noise = rng.choice([0.5, 2.0, 6.0])
   lift = rng.uniform(0, 30)
